@@ -330,6 +330,7 @@ def check_enumname(repo: Repo) -> List[str]:
     reps = []
     problems = []
     has_lower = has_digit_prefix = has_strip_underscore = has_collapse = False
+    from_translate = False
     for node in ast.walk(fn):
         if isinstance(node, ast.Call) and isinstance(node.func, ast.Attribute):
             if node.func.attr == "replace" and len(node.args) == 2:
@@ -358,13 +359,35 @@ def check_enumname(repo: Repo) -> List[str]:
                         problems.append(f"?regular-expression replacement {norm(node)}")
                 except Exception:
                     problems.append(f"?regular-expression replacement {norm(node)}")
+            elif node.func.attr == "translate" and len(node.args) == 1:
+                # key.translate(str.maketrans({"/": "_div_", …})): one pass; equal to the chain of replace() calls when no replacement
+                # text contains a character that is itself translated
+                d = node.args[0]
+                if isinstance(d, (ast.Name, ast.Attribute)):
+                    d = inline.definition_of(repo, None, repo.module("genrv.tools.generate"), d) or d
+                table = None
+                if isinstance(d, ast.Call) and norm(d.func) in ("str.maketrans", "maketrans") and len(d.args) == 1 and isinstance(d.args[0], ast.Dict):
+                    try:
+                        table = ast.literal_eval(d.args[0])
+                    except Exception:
+                        table = None
+                if isinstance(table, dict) and all(isinstance(k, str) and len(k) == 1 and isinstance(v, str) for k, v in table.items()) \
+                        and not any(k in v for k in table for v in table.values()):
+                    reps.extend(table.items())
+                    from_translate = True
+                else:
+                    problems.append(f"?translation table not visible as a dict of single characters: {norm(node)[:80]}")
             elif node.func.attr == "lower":
                 has_lower = True
             elif node.func.attr == "isdigit":
                 has_digit_prefix = True
         if isinstance(node, ast.Compare) and norm(resolve_names(node, defs)) == "ekey[0] == '_'":
             has_strip_underscore = True
-    if reps != ENUMNAME_REPLACEMENTS:
+    if from_translate and sorted(reps) == sorted(ENUMNAME_REPLACEMENTS):
+        pass
+    elif not reps and any(p_.startswith("?") for p_ in problems):
+        pass            # the replacements were not read: undecided, reported above
+    elif reps != ENUMNAME_REPLACEMENTS:
         problems.append(f"replacement table differs: generator {reps} vs checker {ENUMNAME_REPLACEMENTS}")
     for flag, what in ((has_lower, "lower()"), (has_digit_prefix, "digit prefix"),
                        (has_strip_underscore, "leading underscore strip"), (has_collapse, "'__' collapse")):
